@@ -1,11 +1,11 @@
-\* C25 reply form, exhaustive: 2 goroutines x 2 calls, plain and opaque replies across acquire / release, both kinds of client, with termination
+\* C25 reply form, exhaustive: 3 goroutines x 2 calls, plain and opaque replies, both kinds of client, with termination
 CONSTANTS
-  G = 2
+  G = 3
   N = 2
-  Ops = {"acq1", "rel", "qa", "qx"}
+  Ops = {"qa", "qx"}
   Mutex = TRUE
-  AutoAcquire = TRUE
-  RelRule = TRUE
+  AutoAcquire = FALSE
+  RelRule = FALSE
   Hist = FALSE
   OnOpaque = {"raw", "fail"}
   DupOpaque = FALSE
